@@ -158,8 +158,10 @@ contract(Contract(
            "FootnoteDefEl.label": Callee("attr", ret="str")},
     ensures={
         "children_in_container": Clause(_footnote_children_in_container, props=["C01", "C04"]),
-        "state": "self._prefix == self._second_prefix and self._second_prefix == old(self._second_prefix)"
-                 " and self._suppress_item_break",
+        # (the flags decide where blank lines go on THIS pass; a blank line written here becomes a child of the definition on the
+        # next pass, so a wrong flag shows as a second-pass difference: the clause also carries C02)
+        "state": Clause("self._prefix == self._second_prefix and self._second_prefix == old(self._second_prefix)"
+                        " and self._suppress_item_break", props=["C01", "C10", "C02"]),
     },
     canaries=[('with self.container(label_part, "    "):', 'with self.container(label_part, "  "):', None, ["post[children_in_container"])],
 ))
